@@ -336,6 +336,28 @@ type c10Prog struct {
 	// "|"-joined outcomes of these programs, each evaluated once on a generator of its own (each traverses the
 	// value once, or materialises it first): the specification of a fresh traversal
 	OracleSrc []string `json:"oracle_src,omitempty"`
+	// ObjPool: the first len(ObjPool) parameters (o0, o1 ...) are OBJECTS from the session's argument pool: parameter
+	// i gets the object made (once per session, on the same generator, kept and handed in again and again) by the
+	// maker expression ObjPool[i][|a_i| mod len], a_i the i-th integer argument of the evaluation
+	ObjPool [][]string `json:"obj_pool,omitempty"`
+}
+
+func (p *c10Prog) objMakers(args []int64) []string {
+	var ms []string
+	for i, pool := range p.ObjPool {
+		n := int64(len(pool))
+		ms = append(ms, pool[((args[i%len(args)]%n)+n)%n])
+	}
+	return ms
+}
+
+// deep rendering of an argument object (never materialises more than ToString does)
+func c10Render(v value.Value) string {
+	s, err := v.ToString(funcGen.NewEmptyStack[value.Value]())
+	if err != nil {
+		return "error: " + err.Error()
+	}
+	return s
 }
 
 func c10MkProg(name string, defs []c10Def, body *c10E, listBody bool) *c10Prog {
@@ -545,7 +567,50 @@ func c10StatefulPool() []*c10Prog {
 	return ps
 }
 
-func c10FullPool() []*c10Prog { return append(append(c10Pool(), c10FailingPool()...), c10StatefulPool()...) }
+
+// (e) type-polymorphic call sites: the receiver of ONE call site varies across the evaluations of one function
+// between list / map without such a field / map with a closure field named like a method / string / number;
+// (f) operators and methods between two lists / maps with a constant left operand, the right operand (or both)
+// from the session's pool of argument objects, which are handed in again and again
+func c10ObjectPool() []*c10Prog {
+	recv := []string{"[1,2,3]", "{a:1,b:2}", "{a:1,get:k->k+\"!\"}", "{a:1,isAvail:k->\"mine\"}", "{a:1,map:f->\"mine\"}", "\"abc\""}
+	lists := []string{"[1,2,3]", "[2,2]", "[1,2]", "[2,1]", "[3,1,2].map(e->e)", "[1,2].append(3)"}
+	maps := []string{"{a:1,b:2}", "{a:1}", "{b:2,a:1}", "{a:1,get:k->k+\"!\"}"}
+	mk := func(name, src string, pools ...[]string) *c10Prog {
+		p := c10Opaque(name, src)
+		p.ObjPool = pools
+		p.Args = nil
+		for i := range pools {
+			p.Args = append(p.Args, fmt.Sprintf("o%d", i))
+		}
+		p.Args = append(p.Args, "a0", "a1")
+		return p
+	}
+	return []*c10Prog{
+		mk("poly-get", "string(o0.get(\"a\"))", recv),
+		mk("poly-isAvail", "string(o0.isAvail(\"a\"))", recv),
+		mk("poly-size", "string(o0.size())", recv),
+		mk("poly-map", "o0.map(x->x).string()", recv),
+		mk("poly-string", "o0.string()+a1", recv),
+		mk("poly-two-sites", "string(o0.get(\"a\"))+string(o1.get(\"a\"))+string(o0.size())", recv, recv),
+		mk("poly-put", "o0.put(\"z\",a1).string()", recv),
+		mk("contains-const-left", "string([1,2] ~ o0)", lists),
+		mk("contains-let-left", "let c=[3,1,2]; c.orderLess((a,b)->a<b).string()+(c ~ o0)+c.string()", lists),
+		mk("contains-both-pooled", "string(o0 ~ o1)", lists, lists),
+		mk("equal-const-left", "string([1,2,3] = o0)+string(o0 = [1,2])", lists),
+		mk("equal-both-pooled", "string(o0 = o1)+string(o1 = o0)", lists, lists),
+		mk("concat-const-left", "([1,2]+o0).string()+([1,2]+o0).append(a1).string()", lists),
+		mk("reverse-order-pooled", "o0.reverse().string()+o0.orderLess((a,b)->a<b).string()+o0.string()", lists),
+		mk("set-pooled", "o0.set(0,a1).string()+o0.string()", lists),
+		mk("append-pooled", "o0.append(a1).string()+o0.append(a0).string()", lists),
+		mk("map-equal-const-left", "string({a:1,b:2} = o0)", maps),
+		mk("map-merge-const-left", "({z:a1}+o0).string()+o0.string()", maps),
+		mk("map-put-pooled", "o0.put(\"q\",a1).string()+o0.string()", maps),
+		mk("map-replace-pooled", "o0.replace(m->{a:a1}).string()+o0.string()", maps),
+	}
+}
+
+func c10FullPool() []*c10Prog { return append(append(append(c10Pool(), c10FailingPool()...), c10StatefulPool()...), c10ObjectPool()...) }
 
 
 // lazy constants whose MATERIALISATION fails at an element k > 0 (List.Eval must leave the object untouched), and
@@ -900,12 +965,10 @@ func c10Eval(f funcGen.Func[value.Value], args []int64, j int, modelled bool) c1
 	return c10Consume(v, err, j, modelled)
 }
 
-// larg != nil: the pooled list object is passed as first argument
-func c10Call(f funcGen.Func[value.Value], larg value.Value, args []int64) (value.Value, error) {
+// objs: pooled argument objects, passed before the integer arguments
+func c10Call(f funcGen.Func[value.Value], objs []value.Value, args []int64) (value.Value, error) {
 	var vs []value.Value
-	if larg != nil {
-		vs = append(vs, larg)
-	}
+	vs = append(vs, objs...)
 	for _, a := range args {
 		vs = append(vs, value.Int(a))
 	}
@@ -1003,11 +1066,14 @@ func c10Oracle(p *c10Prog, args []int64, j int) c10Out {
 	if err != nil {
 		o = c10Out{Kind: "str", S: "generate-error"}
 	} else {
-		var larg value.Value
+		var objs []value.Value
 		if p.ListArg != "" {
-			larg = c10MakeList(fg, p.ListArg)
+			objs = append(objs, c10MakeList(fg, p.ListArg))
 		}
-		v, err := c10Call(f, larg, args)
+		for _, mk := range p.objMakers(args) {
+			objs = append(objs, c10MakeList(fg, mk))
+		}
+		v, err := c10Call(f, objs, args)
 		o = c10Consume(v, err, j, p.Coq != "")
 	}
 	c10OracleCache[key] = o
@@ -1117,7 +1183,7 @@ func c10CorpusSessions(pool []*c10Prog, start int) []*c10Case {
 	for i, p := range pool {
 		c := &c10Case{ID: start + i}
 		c.Events = append(c.Events, c10Event{Kind: "gen", Prog: p, K: 0})
-		seq := [][]int64{{1, 2}, {5, 0}, {1, 2}, {-1, 1}, {0, 3}, {1, 2}, {3, 3}, {5, 0}, {1, 2}}
+		seq := [][]int64{{1, 2}, {5, 0}, {1, 2}, {-1, 1}, {0, 3}, {1, 2}, {3, 3}, {5, 0}, {1, 2}, {0, 1}, {0, 1}, {2, 0}, {1, 2}}
 		for n, a := range seq {
 			c.Events = append(c.Events, c10Event{Kind: "eval", K: 0, Args: a, J: []int{100, 1, 0, 2}[n%4], Defer: n%3 == 1})
 		}
@@ -1136,6 +1202,7 @@ type c10Result struct {
 	coqEvents, coqObs []string
 	outs              []c10Out // per event (gen: zero value)
 	viol              *GoViolation
+	argViol           *GoViolation // an argument object of the pool changed (reported besides viol)
 	nontriv           bool
 	evals             int
 }
@@ -1151,7 +1218,9 @@ func c10RunSession(c *c10Case, sum *Summary) *c10Result {
 	}
 	lastSeen := map[seenKey]int{}
 	var pending, held []func()
-	pooled := map[string]value.Value{} // maker source -> the ONE list object of this session
+	pooled := map[string]value.Value{} // maker source -> the ONE object of this session
+	pooledSnap := map[string]string{}
+	var pooledOrder []string
 	for n, ev := range c.Events {
 		switch ev.Kind {
 		case "gen":
@@ -1179,15 +1248,23 @@ func c10RunSession(c *c10Case, sum *Summary) *c10Result {
 		case "eval":
 			fn := s.funcs[ev.K]
 			before := fn.allReps()
-			var larg value.Value
-			if fn.prog.ListArg != "" {
-				if pooled[fn.prog.ListArg] == nil {
-					pooled[fn.prog.ListArg] = c10MakeList(s.fg, fn.prog.ListArg)
+			var objs []value.Value
+			get := func(mk string) value.Value {
+				if pooled[mk] == nil {
+					pooled[mk] = c10MakeList(s.fg, mk)
+					pooledSnap[mk] = c10Render(c10MakeList(value.New(), mk)) // what a fresh object of this kind shows
+					pooledOrder = append(pooledOrder, mk)
 				}
-				larg = pooled[fn.prog.ListArg]
-				sum.Count("list_argument", "pooled list object passed as argument")
+				sum.Count("object_argument", "pooled object handed in")
+				return pooled[mk]
 			}
-			v, err := c10Call(fn.f, larg, ev.Args)
+			if fn.prog.ListArg != "" {
+				objs = append(objs, get(fn.prog.ListArg))
+			}
+			for _, mk := range fn.prog.objMakers(ev.Args) {
+				objs = append(objs, get(mk))
+			}
+			v, err := c10Call(fn.f, objs, ev.Args)
 			after := fn.allReps()
 			res.outs = append(res.outs, c10Out{})
 			res.coqEvents = append(res.coqEvents, "")
@@ -1272,6 +1349,13 @@ func c10RunSession(c *c10Case, sum *Summary) *c10Result {
 	for _, f := range held {
 		f()
 	}
+	// the argument objects of the pool must show at the end what a fresh object of their kind shows
+	for _, mk := range pooledOrder {
+		if now := c10Render(pooled[mk]); now != pooledSnap[mk] && res.argViol == nil {
+			res.argViol = &GoViolation{CaseID: c.ID, What: "an argument object of the session's pool (made by " + mk + ", handed to several evaluations) shows different content at the end of the session",
+				Sig: "argument-changed", Expected: pooledSnap[mk], Observed: now, Human: map[string]any{"program": mk}}
+		}
+	}
 	return res
 }
 
@@ -1295,8 +1379,10 @@ func c10RepsCoq(reps []c10Rep) string {
 
 func c10Describe(c *c10Case, res *c10Result) map[string]any {
 	var lines []string
+	progOf := map[int]*c10Prog{}
 	for n, ev := range c.Events {
 		if ev.Kind == "gen" {
+			progOf[ev.K] = ev.Prog
 			la := ""
 			if ev.Prog.ListArg != "" {
 				la = "   [l = ONE list object per session, made by evaluating " + ev.Prog.ListArg + " on this generator, passed to every evaluation]"
@@ -1311,7 +1397,13 @@ func c10Describe(c *c10Case, res *c10Result) map[string]any {
 			if ev.Defer {
 				when = " (a list result is consumed only after the next evaluation)"
 			}
-			lines = append(lines, fmt.Sprintf("%d: f%d.Eval(%v), host consumes %d%s%s", n, ev.K, ev.Args, ev.J, when, o))
+			objs := ""
+			if pr := progOf[ev.K]; pr != nil && len(pr.ObjPool) > 0 {
+				for i, mk := range pr.objMakers(ev.Args) {
+					objs += fmt.Sprintf(" o%d=pool[%s]", i, mk)
+				}
+			}
+			lines = append(lines, fmt.Sprintf("%d: f%d.Eval(%v%s), host consumes %d%s%s", n, ev.K, ev.Args, objs, ev.J, when, o))
 		}
 	}
 	sig := "history-dependent/session"
@@ -1369,10 +1461,12 @@ func cmdC10(seed int64, tier, outDir string) {
 			sum.Nontriv(string(text))
 		}
 		sum.Cases[fmt.Sprint(c.ID)] = d
-		if res.viol != nil {
-			res.viol.Human["session"] = d["session"]
-			res.viol.Human["repro"] = c
-			viols = append(viols, *res.viol)
+		for _, v := range []*GoViolation{res.viol, res.argViol} {
+			if v != nil {
+				v.Human["session"] = d["session"]
+				v.Human["repro"] = c
+				viols = append(viols, *v)
+			}
 		}
 		sum.Sample(d["session"])
 		cw.Add(fmt.Sprintf("(%d, [%s],\n  [%s])", c.ID, strings.Join(res.coqEvents, "; "), strings.Join(res.coqObs, "; ")))
